@@ -160,13 +160,16 @@ func (eng *Engine) modSetOf(fn *ssa.Function) *modSet {
 		for _, in := range b.Instrs {
 			switch x := in.(type) {
 			case *ssa.Store:
-				// stores into fresh local allocations are invisible to the caller unless they escape;
-				// we keep them (over-approximation)
-				if al, ok := x.Addr.(*ssa.Alloc); ok && !al.Heap {
+				// writes into objects this very function allocated do not change any object that
+				// existed before the call
+				if freshRoot(x.Addr, 0) {
 					continue
 				}
 				m.rootStore(x.Addr)
 			case *ssa.MapUpdate:
+				if freshRoot(x.Map, 0) {
+					continue
+				}
 				m.add(compDesc{kind: 'M', t: x.Map.Type()})
 			case *ssa.Call:
 				eng.modCall(m, &x.Call)
@@ -214,6 +217,13 @@ func (eng *Engine) modCall(m *modSet, cc *ssa.CallCommon) {
 			return
 		}
 		if sp := eng.specForFn(cv); sp != nil {
+			if !sp.ModAll && !sp.ModNone && !sp.Trusted && !hasModifies(sp) && len(cv.Blocks) > 0 {
+				m.union(eng.modSetOf(cv))
+				if hasGhostSet(sp) {
+					m.hasExpr = true
+				}
+				return
+			}
 			eng.modSpec(m, sp, cc)
 			return
 		}
@@ -244,6 +254,19 @@ func (eng *Engine) modArg(m *modSet, a ssa.Value) {
 		m.addPointee(mi.X.Type())
 		return
 	}
+	// a function value handed to a library: the library may call it, nothing more
+	switch fv := a.(type) {
+	case *ssa.MakeClosure:
+		if cf, ok := fv.Fn.(*ssa.Function); ok {
+			m.union(eng.modSetOf(cf))
+			return
+		}
+	case *ssa.Function:
+		if len(fv.Blocks) > 0 {
+			m.union(eng.modSetOf(fv))
+			return
+		}
+	}
 	m.addPointee(a.Type())
 }
 
@@ -268,4 +291,45 @@ func (eng *Engine) modSpec(m *modSet, sp *FuncSpec, cc *ssa.CallCommon) {
 			}
 		}
 	}
+}
+
+func hasGhostSet(sp *FuncSpec) bool {
+	for _, c := range sp.Clauses {
+		if c.Kind == KGhostSet {
+			return true
+		}
+	}
+	return false
+}
+
+// freshRoot: the address is inside an object allocated by the enclosing function itself.
+func freshRoot(v ssa.Value, depth int) bool {
+	if depth > 8 {
+		return false
+	}
+	switch x := v.(type) {
+	case *ssa.Alloc, *ssa.MakeSlice, *ssa.MakeMap:
+		return true
+	case *ssa.FieldAddr:
+		return freshRoot(x.X, depth+1)
+	case *ssa.IndexAddr:
+		return freshRoot(x.X, depth+1)
+	case *ssa.Slice:
+		return freshRoot(x.X, depth+1)
+	case *ssa.Call:
+		if b, ok := x.Call.Value.(*ssa.Builtin); ok && b.Name() == "append" {
+			return true // modelled as a fresh backing array
+		}
+	case *ssa.Phi:
+		for _, e := range x.Edges {
+			if e == ssa.Value(x) {
+				continue
+			}
+			if !freshRoot(e, depth+1) {
+				return false
+			}
+		}
+		return true
+	}
+	return false
 }
